@@ -153,7 +153,11 @@ def check_case(ctx, cr, out_name, write_log, rng, tier, max_subsets):
         AUDIT["events"] = []
         AUDIT["on"] = True
         try:
-            res = cli_runs.run_pretext_to_asm(cr, out_name, [*extra, "--no-clobber"])
+            # (every fifth run at --log-level ERROR: a refusal is an error at every log level)
+            lvl = ["--log-level", "ERROR"] if (len(sub) + len(content[sub[0]])) % 5 == 0 else []
+            if lvl:
+                ctx.count("no-clobber-runs-at-log-level-ERROR")
+            res = cli_runs.run_pretext_to_asm(cr, out_name, [*extra, "--no-clobber", *lvl])
         finally:
             AUDIT["on"] = False
         ctx.count("no-clobber-runs")
@@ -478,6 +482,7 @@ def gates(c, tier):
         "format:agp": 8,
         "format:tpf": 8,
         "log:on": 15,
+        "no-clobber-runs-at-log-level-ERROR": 50,
         "clobber:well-formed-report-of-an-earlier-run-in-place": 20,
         "earlier-invocation-in-process-runs": 30,
         "no-clobber:logging-already-configured-by-the-caller": 10,
